@@ -83,6 +83,7 @@ func history(c *C, r *Root, dyn bool) {
 	for step := 0; step < n; step++ {
 		var op string // model request "op 0 <name> args"
 		resync := false
+		deferredState := ""
 		switch k := c.Rand.Intn(14); k {
 		case 0, 1, 2: // set scalar
 			fd := pick(func(fd protoreflect.FieldDescriptor) bool { return singular(fd) && fd.Message() == nil })
@@ -124,6 +125,8 @@ func history(c *C, r *Root, dyn bool) {
 			}
 			m.Clear(fd)
 			op = fmt.Sprintf("clear %d", fd.Number())
+			in["ops"] = append(append([]string{}, trace...), op)
+			c.Check(!m.Has(fd), fmt.Sprintf("Has(%s) is still true right after Clear", fd.Name()), in, "")
 		case 6:
 			fd := pick(func(fd protoreflect.FieldDescriptor) bool { return singular(fd) && fd.Message() != nil })
 			if fd == nil {
@@ -144,6 +147,12 @@ func history(c *C, r *Root, dyn bool) {
 				continue
 			}
 			l := m.Mutable(fd).List()
+			// Mutable hands out a reference to the value STORED in the field: a second Mutable call (also on a
+			// still empty list) must not detach the first handle
+			l2 := l
+			if c.Rand.Intn(2) == 0 {
+				l2 = m.Mutable(fd).List()
+			}
 			var v protoreflect.Value
 			if fd.Message() != nil {
 				v = l.NewElement()
@@ -163,6 +172,8 @@ func history(c *C, r *Root, dyn bool) {
 				l.Append(v)
 				op = fmt.Sprintf("append %d %s", fd.Number(), r.Flat.valTok(fd, v))
 			}
+			in["ops"] = append(append([]string{}, trace...), op+" (two Mutable handles)")
+			c.Check(l.Len() == l2.Len() && m.Get(fd).List().Len() == l.Len(), fmt.Sprintf("list %s: an earlier Mutable handle was detached by a later Mutable call: handle lengths %d / %d, stored length %d", fd.Name(), l.Len(), l2.Len(), m.Get(fd).List().Len()), in, "")
 		case 9, 10:
 			fd := pick(func(fd protoreflect.FieldDescriptor) bool { return fd.IsMap() })
 			if fd == nil {
@@ -215,7 +226,13 @@ func history(c *C, r *Root, dyn bool) {
 			trace = append(trace, fmt.Sprintf("unmarshal(lazy=%v) %s", lazy, vh.Hex(b)))
 			in["ops"] = trace
 			c.Check((uerr == nil) == (ferr == nil), fmt.Sprintf("Unmarshal into a used message: err=%v, into a fresh one: err=%v", uerr, ferr), in, "")
-			if uerr == nil && ferr == nil {
+			// half of the lazy decodes are left UNOBSERVED (no Equal, no snapshot: either would expand the deferred
+			// lazy submessages): the next operation then acts on a message whose lazy fields are still deferred; the
+			// expected state is taken from the eagerly decoded twin
+			if lazy && uerr == nil && ferr == nil && c.Rand.Intn(2) == 0 {
+				deferredState = r.Flat.Snap(fresh)
+				trace[len(trace)-1] += " (unobserved)"
+			} else if uerr == nil && ferr == nil {
 				c.Check(proto.Equal(m.Interface(), fresh.Interface()) && r.Flat.Snap(m) == r.Flat.Snap(fresh), "Unmarshal (no Merge) into a used message differs from decoding into a fresh one", in, "")
 			}
 			if uerr != nil {
@@ -225,7 +242,11 @@ func history(c *C, r *Root, dyn bool) {
 			resync = true
 		}
 		if resync {
-			state = r.Flat.Snap(m)
+			if deferredState != "" {
+				state, deferredState = deferredState, ""
+			} else {
+				state = r.Flat.Snap(m)
+			}
 			continue
 		}
 		trace = append(trace, op)
